@@ -452,7 +452,7 @@ def c02_stage(tier):
     return cov, viol, inc
 
 
-FUZZ_PROPS = ["C01", "C02", "C03", "C04", "C05", "C06", "C07", "C08", "C09", "C10", "C12", "C13", "C14", "C20"]
+FUZZ_PROPS = ["C01", "C02", "C03", "C04", "C05", "C06", "C07", "C08", "C09", "C10", "C12", "C13", "C14", "C18", "C20"]
 
 
 def fuzz_stage(prop, secs, jobs=16, sanitizer="none"):
